@@ -8,6 +8,7 @@ import (
 	"context"
 	"fmt"
 	"reflect"
+	"unsafe"
 	"time"
 
 	"github.com/IrineSistiana/mosdns/v5/zz_verif/fk"
@@ -104,4 +105,20 @@ func intOf(v reflect.Value) (int64, bool) {
 		}
 	}
 	return 0, false
+}
+
+// setUintField sets an unexported unsigned-integer field of *ptr by name
+// whatever its width (the wire-ID counter may be widened by a change).
+func setUintField(ptr any, name string, v uint64) {
+	f := reflect.ValueOf(ptr).Elem().FieldByName(name)
+	if !f.IsValid() {
+		return
+	}
+	f = reflect.NewAt(f.Type(), unsafe.Pointer(f.UnsafeAddr())).Elem()
+	switch f.Kind() {
+	case reflect.Uint, reflect.Uint8, reflect.Uint16, reflect.Uint32, reflect.Uint64:
+		f.SetUint(v)
+	case reflect.Int, reflect.Int8, reflect.Int16, reflect.Int32, reflect.Int64:
+		f.SetInt(int64(v))
+	}
 }
